@@ -253,6 +253,9 @@ def build_harness():
         if os.path.lexists(link):
             os.remove(link)
         os.symlink(REPO, link)
+        # cargo's freshness test is by mtime: after switching to a tree whose files are older than the
+        # last build (e.g. back from a scratch copy to /repo) the stale crate would be reused
+        sh('cargo clean --release --offline -p chrono 2>&1', cwd=hdir, timeout=300)
     lock = os.path.join(hdir, 'Cargo.lock')
     if not os.path.exists(lock):
         shutil.copy(os.path.join(REPO, 'Cargo.lock'), lock)
